@@ -311,7 +311,9 @@ def check_case(case) -> Obs:
     # the high-level methods run on both devices (chosen by a function of the case content, so that it is a pure function of the case)
     fluent = method in ("aspirate", "dispense", "transfer", "distribute") and (case.get("device") == "fluent" or (case.get("device") is None and len(repr(sorted(case.get("args", {}).items(), key=lambda kv: kv[0]))) % 2 == 1))
     if method in ("aspirate", "dispense", "transfer", "distribute"):
-        wl = (robotools.FluentWorklist if fluent else robotools.EvoWorklist)(max_volume=M, diti_mode=case["diti"])
+        from vf.lab import evo_class
+
+        wl = (robotools.FluentWorklist if fluent else evo_class(len(repr(case.get("args")))))(max_volume=M, diti_mode=case["diti"])
         obs.cls("device:" + ("fluent" if fluent else "evo"))
     else:
         wl = robotools.BaseWorklist(max_volume=M, diti_mode=case["diti"])
